@@ -17,12 +17,11 @@ FromRanges(rs) == UNION {rs[k][1]..rs[k][2] : k \in 1..Len(rs)}
 
 \* ---- runs --------------------------------------------------------------------------------------------------------
 MinN(a, b) == IF a < b THEN a ELSE b
-RECURSIVE Run(_, _, _)
-\* length of the maximal run of members of S in s starting at position k, going forward
-Run(s, k, S) == IF k <= Len(s) /\ s[k] \in S THEN 1 + Run(s, k + 1, S) ELSE 0
-RECURSIVE RunBack(_, _, _)
+\* length of the maximal run of members of S in s starting at position k, going forward: the run ends before the first
+\* position that is past the end or holds a non-member (written without recursion: inputs may be hundreds of bytes long)
+Run(s, k, S) == (CHOOSE j \in k..(Len(s) + 1) : (j = Len(s) + 1 \/ s[j] \notin S) /\ \A m \in k..(j - 1) : s[m] \in S) - k
 \* length of the maximal run of members of S in s ending at position k, going backward
-RunBack(s, k, S) == IF k >= 1 /\ s[k] \in S THEN 1 + RunBack(s, k - 1, S) ELSE 0
+RunBack(s, k, S) == k - (CHOOSE j \in 0..k : (j = 0 \/ s[j] \notin S) /\ \A m \in (j + 1)..k : s[m] \in S)
 Lim(n, limit) == IF limit < 0 THEN n ELSE MinN(n, limit)
 Take(s, n) == SubSeq(s, 1, n)
 Drop(s, n) == SubSeq(s, n + 1, Len(s))
@@ -32,7 +31,7 @@ IsPrefix(t, s) == Len(t) <= Len(s) /\ Take(s, Len(t)) = t
 IsSuffix(t, s) == Len(t) <= Len(s) /\ TakeBack(s, Len(t)) = t
 
 \* ---- tokenizer operations ----------------------------------------------------------------------------------------
-\* An operation is a record [op, set (sequence of member bytes), limit, str (byte sequence; skipChar uses str[1])].
+\* An operation is a record [op, limit, str (byte sequence; skipChar uses str[1])] together with a set S of byte values.
 \* Result: [ret (number: 0/1 for the boolean methods, the count for skipAll*), hasTok, tok, rem, n (bytes consumed)].
 Res(ret, hasTok, tok, rem, n) == [ret |-> ret, hasTok |-> hasTok, tok |-> tok, rem |-> rem, n |-> n]
 Nothing(s) == Res(0, FALSE, <<>>, s, 0)
@@ -54,7 +53,7 @@ Token(s, D) == LET d1 == Run(s, 1, D)
                IF t = 0 \/ d2 = 0 THEN Nothing(s)
                ELSE Res(1, TRUE, SubSeq(s, d1 + 1, d1 + t), Drop(s, d1 + t + d2), d1 + t + d2)
 
-Ref(s, o) == LET S == ToSet(o.set) IN
+Ref(s, o, S) ==
   CASE o.op = "prefix" -> Prefix(s, S, o.limit)
     [] o.op = "suffix" -> Suffix(s, S, o.limit)
     [] o.op = "skipAll" -> SkipAll(s, S)
